@@ -272,9 +272,11 @@ func (a *Analysis) branchPred(f *Frame, cond ssa.Value, st State, pred map[ssa.V
 	if ex, ok := pred[c]; ok {
 		ts, fs := Intersect(st, ex.True), Intersect(st, ex.False)
 		if neg {
-			return fs, ts
+			ts, fs = fs, ts
 		}
-		return ts, fs
+		// the call result may also be an atom of the rule itself (e.g. r.hasQuorum(n))
+		lt, lf := a.branch(f, cond, st)
+		return Intersect(ts, lt), Intersect(fs, lf)
 	}
 	return a.branch(f, cond, st)
 }
